@@ -912,4 +912,73 @@ theorem prep_iff_live (fixed : Bool) (T : Topo) (s0 : State) (h0 : ∀ c p, s0.p
         · exact absurd (show Touches c p (Op.prepare c (some ttl) (some p)) from ⟨rfl, rfl, rfl⟩) ht
         · exact hl
 
+
+/-! ### insertion-ordered dicts: why `firsts` + `filter` denote them -/
+
+/-- `d[k]... = x` on a `defaultdict(list)`-like insertion-ordered dict: append to the group of `k`,
+    creating it at the end -/
+def insGroup {κ α : Type} [DecidableEq κ] (k : κ) (x : α) : List (κ × List α) → List (κ × List α)
+  | [] => [(k, [x])]
+  | (k', g) :: t => if k' = k then (k', g ++ [x]) :: t else (k', g) :: insGroup k x t
+
+/-- keys in first-insertion order, each with the sub-list of its elements -/
+def groupsOf {κ α : Type} [DecidableEq κ] (key : α → κ) (l : List α) : List (κ × List α) :=
+  (firsts (l.map key)).map (fun k => (k, l.filter (fun x => key x = k)))
+
+theorem firsts_snoc {κ : Type} [DecidableEq κ] (l : List κ) (k : κ) :
+    firsts (l ++ [k]) = if k ∈ l then firsts l else firsts l ++ [k] := by
+  induction l with
+  | nil => simp [firsts]
+  | cons a t ih =>
+    simp only [List.cons_append, firsts, ih, List.mem_cons]
+    by_cases hkt : k ∈ t
+    · simp [hkt]
+    · by_cases hka : k = a
+      · subst hka; simp [hkt, List.filter_append]
+      · simp [hkt, hka, List.filter_append]
+
+theorem insGroup_map {κ α : Type} [DecidableEq κ] (key : α → κ) (l0 : List α) (x : α) (M : List κ)
+    (hn : M.Nodup) :
+    insGroup (key x) x (M.map (fun k => (k, l0.filter (fun y => key y = k)))) =
+      (M.map (fun k => (k, (l0 ++ [x]).filter (fun y => key y = k)))) ++
+        (if key x ∈ M then [] else [(key x, [x])]) := by
+  induction M with
+  | nil => simp [insGroup]
+  | cons a t ih =>
+    simp only [List.nodup_cons] at hn
+    simp only [List.map_cons, insGroup, List.mem_cons]
+    by_cases ha : a = key x
+    · subst ha
+      have : ∀ k ∈ t, (l0 ++ [x]).filter (fun y => key y = k) = l0.filter (fun y => key y = k) := by
+        intro k hk
+        have : key x ≠ k := fun h => hn.1 (h ▸ hk)
+        simp [List.filter_append, this]
+      have hm : t.map (fun k => (k, (l0 ++ [x]).filter (fun y => key y = k)))
+          = t.map (fun k => (k, l0.filter (fun y => key y = k))) :=
+        List.map_congr_left (fun k hk => by rw [this k hk])
+      simp [hm, List.filter_append]
+      intro a ha h; exact hn.1 (h ▸ ha)
+    · have hne : key x ≠ a := fun h => ha h.symm
+      simp only [ha, if_false, ih hn.2, hne, false_or]
+      simp [List.filter_append, hne]
+
+/-- Building the dict by insertion gives exactly `firsts` (keys) + `filter` (groups): the way
+    `Writes.lean` denotes `results[aid]`, `updates[acc]`, `updates[acc][service]`. -/
+theorem insertion_order_groups {κ α : Type} [DecidableEq κ] (key : α → κ) (l0 l : List α) :
+    l.foldl (fun m x => insGroup (key x) x m) (groupsOf key l0) = groupsOf key (l0 ++ l) := by
+  induction l generalizing l0 with
+  | nil => simp
+  | cons x l ih =>
+    have step : insGroup (key x) x (groupsOf key l0) = groupsOf key (l0 ++ [x]) := by
+      unfold groupsOf
+      rw [insGroup_map key l0 x _ (nodup_firsts _), List.map_append, List.map_cons, List.map_nil,
+        firsts_snoc]
+      by_cases h : key x ∈ firsts (l0.map key)
+      · have h' : key x ∈ l0.map key := (mem_firsts _ _).1 h
+        simp [h, h']
+      · have h' : ¬ key x ∈ l0.map key := fun hh => h ((mem_firsts _ _).2 hh)
+        simp [h, h', List.filter_append]
+        intro y hy hk; exact absurd (List.mem_map.2 ⟨y, hy, hk⟩) h'
+    rw [List.foldl_cons, step, ih, List.append_assoc]; rfl
+
 end Hap.Writes
